@@ -22,20 +22,22 @@ const modPath = "github.com/ozanh/ugo"
 // Loaded is the type-checked and SSA-lowered program of the repository's
 // current working tree under one build configuration.
 type Loaded struct {
-	Dir       string
-	Config    string // e.g. "linux/amd64"
-	Pkgs      []*packages.Package
-	ByPath    map[string]*packages.Package
-	Fset      *token.FileSet
-	Prog      *ssa.Program
-	SPkgs     map[string]*ssa.Package
-	all       map[*ssa.Function]bool
-	chaG      *callgraph.Graph
-	vtaG      *callgraph.Graph
-	declOf    map[*types.Func]*ast.FuncDecl
-	callers   map[*ssa.Function][]ssa.CallInstruction
-	addrTaken map[*ssa.Function]bool
-	NumFunc   int
+	Dir          string
+	Config       string // e.g. "linux/amd64"
+	Pkgs         []*packages.Package
+	ByPath       map[string]*packages.Package
+	Fset         *token.FileSet
+	Prog         *ssa.Program
+	SPkgs        map[string]*ssa.Package
+	all          map[*ssa.Function]bool
+	chaG         *callgraph.Graph
+	vtaG         *callgraph.Graph
+	declOf       map[*types.Func]*ast.FuncDecl
+	callers      map[*ssa.Function][]ssa.CallInstruction
+	addrTaken    map[*ssa.Function]bool
+	ifaceMethods map[string]bool
+	poolDom      map[*ssa.Function]bool
+	NumFunc      int
 }
 
 func repoDir() string {
